@@ -437,6 +437,69 @@ func cmdCheck(args []string) int {
 		fmt.Printf("VIOLATION property=%s replay=%s obligation=%s%s\n", *prop, path, r.Name, suffix)
 		exit = 1
 	}
+	// bounded stand-ins: functions or paths the deductive check leaves assumed are exercised on the real code
+	// within stated bounds (labelled bounded; never counted as proved)
+	var boundedCov []map[string]any
+	boundedFails := 0
+	if files, _ := filepath.Glob(filepath.Join(verifDir(), "bounded", *prop, "*.go")); len(files) > 0 {
+		os.Setenv("GVC_TIER", *tier)
+		os.Setenv("GVC_SEED", fmt.Sprint(seed))
+		sort.Strings(files)
+		for _, f := range files {
+			b, err := os.ReadFile(f)
+			if err != nil {
+				machinery = append(machinery, fmt.Sprintf("bounded stand-in %s: %v", f, err))
+				continue
+			}
+			src := string(b)
+			dir := "."
+			if strings.HasPrefix(src, "// dir:") {
+				nl := strings.Index(src, "\n")
+				dir = strings.TrimSpace(strings.TrimPrefix(src[:nl], "// dir:"))
+				src = "//" + src[nl:]
+			}
+			overlayTimeout = 1500 * time.Second
+			tb := time.Now()
+			res, human, err := runOverlayTest(dir, src, "^TestBounded", wd, "-timeout", "1400s")
+			overlayTimeout = 180 * time.Second
+			entry := map[string]any{"file": filepath.Base(f), "package": dir, "label": "bounded stand-in: covers what the assumptions above leave unverified, within the bounds stated in the file; not counted as proved", "secs": round3(time.Since(tb).Seconds())}
+			failed, ran := false, false
+			for name, verdict := range res {
+				if strings.HasPrefix(name, "TestBounded") {
+					ran = true
+					if verdict == "fail" {
+						failed = true
+					}
+				}
+			}
+			for _, line := range strings.Split(human, "\n") {
+				if strings.HasPrefix(strings.TrimSpace(line), "BOUNDED ") {
+					entry["measured"] = strings.TrimSpace(line)
+				}
+			}
+			switch {
+			case err != nil || !ran:
+				machinery = append(machinery, fmt.Sprintf("bounded stand-in %s did not run: %v %s", filepath.Base(f), err, firstLines(human, 8)))
+			case failed:
+				os.MkdirAll(replayDir, 0o755)
+				path := filepath.Join(replayDir, "bounded_"+sanitize(filepath.Base(f))+".json")
+				var fl []string
+				for _, line := range strings.Split(human, "\n") {
+					if strings.Contains(line, "FAILING-SEQUENCE") {
+						fl = append(fl, strings.TrimSpace(line))
+					}
+				}
+				rb, _ := json.MarshalIndent(map[string]any{"property": *prop, "kind": "bounded stand-in failed on the real code", "test_file": f, "package": dir,
+					"rerun": "cd /verif && tools/ovtest.sh " + dir + " <(tail -n +2 " + f + ") TestBounded", "failing": fl, "output": firstLines(human, 60)}, "", " ")
+				os.WriteFile(path, rb, 0o644)
+				fmt.Printf("VIOLATION property=%s replay=%s obligation=bounded:%s\n", *prop, path, filepath.Base(f))
+				entry["failed"] = true
+				boundedFails++
+				exit = 1
+			}
+			boundedCov = append(boundedCov, entry)
+		}
+	}
 	if len(jobs) == 0 {
 		machinery = append(machinery, "no obligations were generated for "+*prop)
 	}
@@ -499,15 +562,16 @@ func cmdCheck(args []string) int {
 		"known_findings_reported":  knownLines,
 		"obligations_failing_as_known_findings": coveredByFinding,
 		"vacuity":                  map[string]int{"cover_checks_run": vacuityRun, "not_vacuous": vacuityOK},
+		"bounded_standins":         boundedCov,
 		"retried_with_longer_limit": retried,
 		"machinery_errors":         machinery,
 		"explanation":              "one SMT query per named obligation generated from the SSA of the real functions in /repo under their //@ contracts; unsat = discharged",
 	}
-	ev := Evidence{PropertyID: *prop, Tier: *tier, Seed: seed, Level: "proof", Coverage: cov, Assumptions: assum, WallS: round3(time.Since(t0).Seconds()), Violations: len(viol)}
+	ev := Evidence{PropertyID: *prop, Tier: *tier, Seed: seed, Level: "proof", Coverage: cov, Assumptions: assum, WallS: round3(time.Since(t0).Seconds()), Violations: len(viol) + boundedFails}
 	os.MkdirAll(filepath.Join(verifDir(), "evidence"), 0o755)
 	b, _ := json.MarshalIndent(ev, "", " ")
 	os.WriteFile(filepath.Join(verifDir(), "evidence", *prop+".json"), append(b, '\n'), 0o644)
-	fmt.Printf("%s: %d functions, %d obligations, %d discharged, %d violations, %d known findings, %.1fs\n", *prop, len(frs), len(results), discharged, len(viol), len(knownLines), time.Since(t0).Seconds())
+	fmt.Printf("%s: %d functions, %d obligations, %d discharged, %d violations, %d known findings, %.1fs\n", *prop, len(frs), len(results), discharged, len(viol)+boundedFails, len(knownLines), time.Since(t0).Seconds())
 	return exit
 }
 
